@@ -212,6 +212,26 @@ def run_case(c):
     if not e <= 3e-4:
         i = int(np.argmax(np.abs(gotf / hank - 1)))
         bad("projected-scattering-factor/vs-hankel", "projected_scattering_factor(k=%.2f) = %r, 2 pi Hankel transform of the projected potential = %r" % (kk[i], gotf[i], hank[i]))
+    # finite-slab projection (where the parametrization offers it): whole axis == projected potential; slab [a, b] == quadrature of the 3-D potential
+    try:
+        Vf = p.finite_projected_potential(sym)
+    except Exception:  # noqa: BLE001  (only the Peng form has an analytic finite projection)
+        Vf = None
+    if Vf is not None:
+        rs = np.geomspace(0.1, 3.0, 6)
+        whole = np.asarray(Vf(rs, -np.inf, np.inf), float)
+        e = float(np.abs(whole / np.asarray(Vp(rs), float) - 1).max())
+        worst = max(worst, e / 3e-4)
+        if not e <= 3e-4:
+            bad("finite-projection/whole-axis-vs-projected", "finite_projected_potential(r, -inf, inf) differs from projected_potential(r) by %.3g (relative)" % e)
+        for a_, b_ in ((-0.7, 1.3), (0.0, 0.5), (2.0, 3.5)):
+            zz, ww = panels(list(np.linspace(a_, b_, 5)), 60)
+            quad = np.array([np.sum(ww * np.asarray(V(np.sqrt(ri ** 2 + zz ** 2)), float)) for ri in rs])
+            slab = np.asarray(Vf(rs, a_, b_), float)
+            e = float(np.abs((slab - quad) / whole).max())  # relative to the whole-axis projection: far slabs contribute almost nothing
+            worst = max(worst, e / 3e-4)
+            if not e <= 3e-4:
+                bad("finite-projection/slab-vs-quadrature", "finite_projected_potential(r, %r, %r) differs from the z-quadrature of the 3-D potential by %.3g of the whole-axis projection" % (a_, b_, e))
     # one global constant between the two scattering-factor kinds
     ratio = np.asarray(f(k ** 2), float) / np.asarray(fp(k ** 2), float)
     ref = _RATIO.setdefault("ref", 0.020886643)  # measured once on the unchanged tree: h^2 / (2 pi m e) in these units
